@@ -187,6 +187,7 @@ def device_specs(draw, mode="ising", allow_builtin=True, force_type=None,
 
 # ------------------------------------------------------------------ registers
 ID_POOL = ["q0", "q1", "q2", "q3", "q4", "q5", "a", "b", "atom7", "10", "x y"]
+ID_CONCAT = ["1", "11", "12", "2", "a", "aa", "ab", "b"]
 
 
 @st.composite
@@ -204,10 +205,13 @@ def register_specs(draw, n=(1, 6), dim=None, layout=None, mappable=False,
         jitter = draw(st.sampled_from([0.0, 0.0, 0.3, -0.7]))
         pts.append([gi * spacing + (jitter if j == 0 else 0.0) for j, gi in enumerate(g)])
     if ids is None:
-        id_kind = draw(st.sampled_from(["q", "q", "pool"]))
+        id_kind = draw(st.sampled_from(["q", "q", "pool", "q", "q", "pool", "concat"]))
         id_kind_pool = id_kind == "pool"
         if id_kind == "q":
             idl = [f"q{i}" for i in range(k)]
+        elif id_kind == "concat":
+            # labels whose concatenations coincide ("1"+"12" == "11"+"2")
+            idl = list(draw(st.permutations(ID_CONCAT)))[:k]
         else:
             idl = list(draw(st.permutations(ID_POOL)))[:k]
     else:
@@ -216,6 +220,8 @@ def register_specs(draw, n=(1, 6), dim=None, layout=None, mappable=False,
     if int_ids and draw(st.integers(0, 2)) == 0:
         # integer labels 0..k-1 in a permuted order (labels that look like positions)
         idl = list(draw(st.permutations(list(range(k)))))
+        if draw(st.integers(0, 3)) == 0:
+            idl = list(draw(st.permutations([1, 11, 12, 2, 0, 21, 112])))[:k]
     use_layout = layout if layout is not None else (draw(st.integers(0, 3)) == 0)
     s: dict = dict(dim=dim, ids=idl, coords=pts)
     if use_layout or mappable:
